@@ -42,6 +42,10 @@ def register(reg):
     c.ensure("data", "len(out_file.usamples) == N * nchans and "
                      "forall(i, 0, N * nchans, out_file.usamples[i] == XS(start * nchans + i))")
     c.ensure("typestate", TYPESTATE.format(w="out_file"))
+    c.props.append("C08")
+    c.ensure("hdr:time", "out_file.out_header.tsamp == self._header.tsamp and out_file.out_header.tstart == self._header.tstart + start * self._header.tsamp / 86400")
+    c.ensure("hdr:channels", "out_file.out_header.nchans == self._header.nchans and out_file.out_header.nbits == self._header.nbits and "
+                             "out_file.out_header.fch1 == self._header.fch1 and out_file.out_header.foff == self._header.foff")
     c.ensure("depth", "out_file.bitsinfo.nbits == self._header.nbits")
     reg.add(c)
 
@@ -64,6 +68,11 @@ def register(reg):
                                                        ("prefix", prefix(rev))])
     c.ensure("data", rows("N", rev))
     c.ensure("typestate", TYPESTATE.format(w="out_file"))
+    c.props.append("C08")
+    c.ensure("hdr:time", "out_file.out_header.tsamp == self._header.tsamp and out_file.out_header.tstart == self._header.tstart + start * self._header.tsamp / 86400")
+    c.ensure("hdr:channels", "out_file.out_header.nchans == self._header.nchans and out_file.out_header.nbits == self._header.nbits and "
+                             "out_file.out_header.fch1 == self._header.fch1 + (self._header.nchans - 1) * self._header.foff and "
+                             "out_file.out_header.foff == -self._header.foff")
     c.ensure("depth", "out_file.bitsinfo.nbits == self._header.nbits")
     reg.add(c)
 
@@ -82,6 +91,10 @@ def register(reg):
                                               end_hints=[("appended", appended.format(blk="data")), ("prefix", prefix(msk))])
     c.ensure("data", rows("N", msk))
     c.ensure("typestate", TYPESTATE.format(w="out_file"))
+    c.props.append("C08")
+    c.ensure("hdr:time", "out_file.out_header.tsamp == self._header.tsamp and out_file.out_header.tstart == self._header.tstart + start * self._header.tsamp / 86400")
+    c.ensure("hdr:channels", "out_file.out_header.nchans == self._header.nchans and out_file.out_header.nbits == self._header.nbits and "
+                             "out_file.out_header.fch1 == self._header.fch1 and out_file.out_header.foff == self._header.foff")
     c.ensure("depth", "out_file.bitsinfo.nbits == self._header.nbits")
     reg.add(c)
 
@@ -109,6 +122,12 @@ def register(reg):
                    ("prefix", f"forall(T, 0, boff(_k0 - 1), forall(s, 0, nsub, out_file.usamples[nsub * T + s] == {sval}))")])
     c.ensure("data", srows("(N - MAXD())"))
     c.ensure("typestate", TYPESTATE.format(w="out_file"))
+    c.props.append("C08")
+    c.ensure("hdr:time", "out_file.out_header.tsamp == self._header.tsamp and out_file.out_header.tstart == self._header.tstart + start * self._header.tsamp / 86400")
+    c.ensure("hdr:channels", "out_file.out_header.nchans == nsub and out_file.out_header.nbits == 32 and out_file.out_header.dm == dm and "
+                             "out_file.out_header.foff == self._header.foff * (self._header.nchans // nsub) and "
+                             # centre of the first sub-band = mean of the centres of the channels it sums
+                             "out_file.out_header.fch1 == self._header.fch1 + (self._header.nchans // nsub - 1) * self._header.foff / 2")
     c.ensure("depth", "out_file.bitsinfo.nbits == 32")
     reg.add(c)
 
@@ -159,4 +178,8 @@ def register(reg):
     c.loops["0:nsamps_r__ii_data"] = LoopSpec([("typestate", TYPESTATE.format(w="out_file"))])
     c.ensure("typestate", TYPESTATE.format(w="out_file"))
     c.ensure("depth", "out_file.bitsinfo.nbits == self._header.nbits")
+    c.props.append("C08")
+    c.ensure("hdr:time", "out_file.out_header.tsamp == self._header.tsamp * tfactor and out_file.out_header.tstart == self._header.tstart + start * self._header.tsamp / 86400")
+    c.ensure("hdr:channels", "out_file.out_header.nchans == self._header.nchans // ffactor and out_file.out_header.nbits == self._header.nbits and "
+                             "out_file.out_header.foff == self._header.foff * ffactor and out_file.out_header.fch1 == self._header.fch1")
     reg.add(c)
